@@ -139,6 +139,17 @@ RoundTrip == LET d == Decode(kind, Toks, fmt) IN
              /\ Encode(kind, d.v, fmt) = Toks
 \* C02 (at token level: the decoder consumes exactly what the encoder produced)
 SizeAgree == Decode(kind, Toks, fmt).used = Len(Toks)
+\* the arithmetic size-from-shape function agrees with the size of the token stream,
+\* and the set-based run finder with the recursive one (both are used on real-sized data)
+ShapeSizeAgree == ShapeSize(kind, ShapeOf(kind, b, fmt), fmt) = Size(Toks)
+RunsSetAgree ==
+  \A j \in 1..Len(Layout[kind]) :
+    LET f == Layout[kind][j] IN
+    (f.k = "list" /\ \E q \in 1..Len(Layout[f.item]) : Layout[f.item][q].k = "rle") =>
+       \A t \in 1..Len(b[f.name]) :
+          LET m == MaskOf(b[f.name][t].frames)
+              m01 == [i \in 1..Len(m) |-> IF m[i] THEN 1 ELSE 0] IN
+          RunsSet(m01) = {Runs(m)[r] : r \in 1..Len(Runs(m))}
 \* C05: the run table of every run-length coded field
 RleFieldsOK ==
   \A j \in 1..Len(Layout[kind]) :
